@@ -58,8 +58,8 @@ CHECKS = {
          "Seeded worlds x target variants x pre-existing entries at mapped locations x fault plans; mapping, no overwrite/alteration of existing entries, source removed only with complete bytes at the target, collided sources kept, no stray files, content conservation.",
          "second device simulated by the device-pin hook plus EXDEV at the seam; symlink members not generated", "4/C18"),
  "C19": ("exploration", "B", "deterministic simulation: the real semaphore.rs under shuttle's controlled scheduler (seeded random + PCT), nondeterministic wakee, injected spurious wake-ups, persisted replayable schedules",
-         "Millions of seeded schedules of 2..4 threads x 1..3 acquire/release pairs x 0..2 permits with guards released on the acquiring or on another thread; invariants: holders <= permits at every acquisition, no deadlock/step overrun, full permit count available afterwards. DFS on the smallest scenario as a cross-check.",
-         "shuttle's primitives stand for std's; exploration saturates the small bounded space in practice but is not an enumeration", "3/B1, 4/C19"),
+         "Millions of seeded schedules of 2..4 threads x 1..3 acquire/release pairs x 0..2 permits with guards released on the acquiring or on another thread; invariants: holders <= permits at every acquisition, no deadlock/step overrun, full permit count available afterwards. DFS on the smallest scenario as a cross-check. Plus 36 fixed fault-injection cases outside shuttle (std primitives) in which a holder unwinds while holding guards.",
+         "shuttle's primitives stand for std's; exploration saturates the small bounded space in practice but is not an enumeration; shuttle cannot run a release during unwinding, that slice uses real threads and is not schedule-controlled", "3/B1, 4/C19"),
 }
 NOT_APPLICABLE = {
  "C16": "pure function of (glob pattern, string): no schedule, clock, fault, stream or history for a simulator to control; needs bounded-exhaustive input enumeration against a reference matcher, which is a different technique (DESIGN section 5)",
